@@ -7,7 +7,8 @@ REPO=${1:-/repo}
 B=$(mktemp -d /var/tmp/msm_baseline.XXXXXX)
 trap 'rm -rf "$B"' EXIT
 cmake -G Ninja -S "$REPO" -B "$B" -DBUILD_TESTING=ON -DCMAKE_BUILD_TYPE=RelWithDebInfo -DCMAKE_CXX_FLAGS=-Wno-error >"$B/configure.log" 2>&1 || { cat "$B/configure.log"; exit 2; }
-cmake --build "$B" --target tests -j"$(nproc)" >"$B/build.log" 2>&1 || { tail -50 "$B/build.log"; exit 2; }
+# a compiler process killed by memory pressure on a shared machine is not a verdict: retry with fewer jobs
+cmake --build "$B" --target tests -j"$(nproc)" >"$B/build.log" 2>&1 || cmake --build "$B" --target tests -j4 >>"$B/build.log" 2>&1 || { tail -50 "$B/build.log"; exit 2; }
 ctest --test-dir "$B" -j8 --timeout 900 --output-junit "$B/junit.xml" 2>&1 | tail -15
 rc=${PIPESTATUS[0]}
 # per-case totals from the Boost.Test executables
